@@ -110,8 +110,7 @@ def validate(scen_name, traces, workers=16, timeout=900, tmpdir=None):
             st["generated"] += s["generated"]
             st["distinct"] += s["distinct"]
             for v in s["violated"]:
-                st["violated"].append(v)
-                st["violated_trace"] = s.get("violated_trace")
+                st["violated"].append((v, s.get("violated_trace")))
                 outs.append(out)
             if s.get("error"):
                 st["error"] = s["error"]
